@@ -243,7 +243,7 @@ func TestC01(t *testing.T) {
 					(g.L["exists"] || a.labels["exists"]) && kf.Suppress(st, idInterm) {
 					return
 				}
-				if strings.Contains(msg, "unable to find field with index") && gen.ConstConjunctInOuterOn(q) &&
+				if strings.Contains(msg, "unable to find field with index") && a.constConjunctInOn() &&
 					(g.L["insub"] || g.L["notinsub"] || g.L["exists"] || a.labels["insub"] || a.labels["notinsub"] || a.labels["exists"]) &&
 					kf.Suppress(st, idOuterSub) {
 					return
